@@ -460,11 +460,19 @@ def r9_check_timer(prog, run):
     active = [fl.get('qname') or 'QXmppIceComponentPrivate::' + fl['name'] for fl in rec['fields']
               if 'CandidatePair' in (fl.get('t') or '') and (fl.get('t') or '').rstrip().endswith('*') and '<' not in fl['t']]
     nstop = 0
+    # a small member of the private class that only stops the timer stands for the stop at its call sites
+    stoppers = {}
     for f in prog.fns.values():
-        if f.entry is None or not f.file.endswith('QXmppStun.cpp'):
+        if f.entry is not None and f.file.endswith('QXmppStun.cpp') and (f.record or '') == 'QXmppIceComponentPrivate' and not f.is_lambda and len(list(f.calls())) <= 2 \
+                and any(f.cname(n) == 'QTimer::stop' and n.get('obj') is not None and f.nodes[f.skip(n['obj'])].get('f') == tq for _, n in f.calls()):
+            stoppers[f.id] = f
+    for f in prog.fns.values():
+        if f.entry is None or not f.file.endswith('QXmppStun.cpp') or f.id in stoppers:
             continue
         for i, n in f.calls():
-            if f.cname(n) != 'QTimer::stop' or n.get('obj') is None or f.nodes[f.skip(n['obj'])].get('f') != tq:
+            direct = f.cname(n) == 'QTimer::stop' and n.get('obj') is not None and f.nodes[f.skip(n['obj'])].get('f') == tq
+            via = any(g.id in stoppers for g in prog.callee_fns(f, n))
+            if not (direct or via):
                 continue
             nstop += 1
             run.instance(rid)
